@@ -169,6 +169,26 @@ def known_findings(prop=None):
     return out
 
 
+def run_py_corpus(ctx):
+    """corpus/<prop>/*.py: regression inputs of fixed findings, plain programs with asserts"""
+    import runpy
+    import warnings
+    cdir = os.path.join(VERIF, "corpus", ctx.prop)
+    n = 0
+    for fn in sorted(os.listdir(cdir)) if os.path.isdir(cdir) else []:
+        if fn.endswith(".py"):
+            n += 1
+            try:
+                with warnings.catch_warnings():
+                    warnings.simplefilter("ignore")
+                    runpy.run_path(os.path.join(cdir, fn))
+            except BaseException as e:
+                if isinstance(e, (KeyboardInterrupt, SystemExit)):
+                    raise
+                ctx.violation(os.path.join("corpus", ctx.prop, fn), f"regression input fails: {type(e).__name__}: {e}")
+    return n
+
+
 def scn_hash(text: str) -> str:
     return hashlib.sha1(text.encode()).hexdigest()[:12]
 
